@@ -27,7 +27,7 @@ import (
 
 func TestMain(m *testing.M) {
 	ev.Rule("cases = batches of requests (sequential, or 2..16 in flight) through httpd.Mux + Logger.Relay with generated handler behaviours: status 200..599 written or not, body or not, return or panic with a value of a generated type " +
-		"(string, error, int, struct, typed nil pointer, panic(nil)) before or after writing; matched and unmatched routes; generated method, URI and RemoteAddr (IPv4, bracketed IPv6); log handler kind x threshold; " +
+		"(string, error, int, struct, typed nil pointer, panic(nil), unhashable values: slice, map, error struct holding a slice) before or after writing; matched and unmatched routes; generated method, URI and RemoteAddr (IPv4, bracketed IPv6); log handler kind x threshold; " +
 		"oracle = no panic escapes ServeHTTP, the recorder sees 500 iff the handler panicked before anything was written (else what it wrote, 200 if nothing), and the written records, parsed per handler and grouped by request ID, are exactly one REQ_BEG and one REQ_END " +
 		"(at Info) with the request's method, URI, client IP and the ID the handler saw, END code = status on the wire, BEG before END, plus exactly one Error record with the panic value for a panicking handler; " +
 		"non-trivial = a panic after a partial response, a non-string panic value, or at least 4 requests in flight; distinct by batch hash")
@@ -57,6 +57,9 @@ const (
 	pNil
 	pWrapsAbort // an ordinary error value that merely wraps http.ErrAbortHandler: not the sentinel itself
 	pIsAbort    // an error whose Is method claims to match the sentinel
+	pSlice      // values of unhashable dynamic types: a slice, a map, a struct holding a slice (as an error)
+	pMap
+	pErrWithSlice
 	numPanicKinds
 	// pAbort is http.ErrAbortHandler: the statement makes no promise about such a request itself, but it is part of
 	// the history the following requests must be unaffected by
@@ -85,7 +88,7 @@ func (b behaviour) String() string {
 		}
 		kind := "http.ErrAbortHandler"
 		if b.panicKind < numPanicKinds {
-			kind = []string{"", "string", "error", "int", "struct", "typed-nil", "nil", "error-wrapping-ErrAbortHandler", "error-whose-Is-matches-ErrAbortHandler"}[b.panicKind]
+			kind = panicKindNames[b.panicKind]
 		}
 		s += fmt.Sprintf(" panic(%s %q/%d) %s writing", kind, b.pstr, b.pint, when)
 	}
@@ -108,9 +111,26 @@ func (b behaviour) panicValue() any {
 		return fmt.Errorf("%s: %w", b.pstr, http.ErrAbortHandler)
 	case pIsAbort:
 		return claimsAbort{b.pstr}
+	case pSlice:
+		return []int{b.pint}
+	case pMap:
+		return map[string]int{"code": b.pint}
+	case pErrWithSlice:
+		return multiErr{Codes: []int{b.pint}}
 	}
 	return nil
 }
+
+// composite reports panic values whose rendering is left to the handler: only "carries the number" is asserted.
+func (b behaviour) composite() bool {
+	return b.panicKind == pStruct || b.panicKind == pSlice || b.panicKind == pMap
+}
+
+type multiErr struct{ Codes []int }
+
+func (m multiErr) Error() string { return fmt.Sprintf("codes=%v", m.Codes) }
+
+var panicKindNames = []string{"", "string", "error", "int", "struct", "typed-nil", "nil", "error-wrapping-ErrAbortHandler", "error-whose-Is-matches-ErrAbortHandler", "slice", "map", "error-struct-holding-a-slice"}
 
 type claimsAbort struct{ msg string }
 
@@ -126,8 +146,10 @@ func (b behaviour) panicNode() lm.Node {
 		return lm.Node{Key: "panic", Kind: lm.KError, S: b.pstr}
 	case pInt:
 		return lm.Node{Key: "panic", Kind: lm.KInt64, I: int64(b.pint)}
-	case pStruct:
+	case pStruct, pSlice, pMap:
 		return lm.Node{Key: "panic", Kind: lm.KStruct} // composite: compared through its own encoding below
+	case pErrWithSlice:
+		return lm.Node{Key: "panic", Kind: lm.KError, S: fmt.Sprintf("codes=[%d]", b.pint)}
 	case pTypedNil:
 		return lm.Node{Key: "panic", Kind: lm.KNilPtr}
 	case pWrapsAbort:
@@ -537,9 +559,9 @@ func runBatch(b *batch, realServer bool) string {
 				if er.panicJ == nil {
 					return what + ": the Error record has no panic member: " + clip(er.raw)
 				}
-				if rq.b.panicKind == pStruct {
+				if rq.b.composite() {
 					if got := er.panicJ.String(); got != fmt.Sprintf(`{"Code":%d,"Msg":%s}`, rq.b.pint, strconv.Quote(rq.b.pstr)) && !strings.Contains(got, strconv.Itoa(rq.b.pint)) {
-						return fmt.Sprintf("%s: panic member %s does not carry the struct value {%d %q}", what, got, rq.b.pint, rq.b.pstr)
+						return fmt.Sprintf("%s: panic member %s does not carry the panic value %v", what, got, rq.b.panicValue())
 					}
 				} else if m := lm.Match(lm.ExpectNode(node)[0].Exp, *er.panicJ, "$.panic"); m != "" {
 					return what + ": " + m
@@ -553,7 +575,7 @@ func runBatch(b *batch, realServer bool) string {
 				if exp.Kind == lm.TVExact && got != exp.Text {
 					return fmt.Sprintf("%s: panic=%q, want %q", what, got, exp.Text)
 				}
-				if rq.b.panicKind == pStruct && !strings.Contains(got, strconv.Itoa(rq.b.pint)) {
+				if rq.b.composite() && !strings.Contains(got, strconv.Itoa(rq.b.pint)) {
 					return fmt.Sprintf("%s: panic=%q does not carry the struct value", what, got)
 				}
 			default:
@@ -593,7 +615,7 @@ func TestBatches(t *testing.T) {
 				continue
 			}
 			if rq.matched && rq.b.panicKind != pNone {
-				ev.Label("panic:" + []string{"", "string", "error", "int", "struct", "typed-nil", "nil", "error-wrapping-ErrAbortHandler", "error-whose-Is-matches-ErrAbortHandler"}[rq.b.panicKind])
+				ev.Label("panic:" + panicKindNames[rq.b.panicKind])
 				if !rq.b.panicBefore && (rq.b.status != 0 || rq.b.body) {
 					ev.Label("panic_after_partial_response")
 					nt = true
